@@ -212,6 +212,14 @@ def established_flow_scripts(rng):
         for i, rep in enumerate(rpc_replies):
             out.append(Script(CFG, gens.handshake(CFG.key, s, d, 41000 + i, 111, [call, rep, rep]), "established:rpc"))
             out.append(Script(CFG, gens.handshake(CFG.key, s, d, 41100 + i, 111, [call + rep]), "established:rpc-same-segment"))
+        # calls whose record mark does not have the last-fragment bit (as a later message of a flow bound to RPC, and as
+        # the first one with a mark byte that is not the first byte of another signature), then reply-typed messages
+        raw = call[4:]
+        nolast = struct.pack("!I", len(raw)) + raw
+        odd = struct.pack("!I", 0x40000000 | len(raw)) + raw
+        for j, segs in enumerate(([call, nolast, rpc_replies[0], rpc_replies[1]], [odd, rpc_replies[0], rpc_replies[2]],
+                                  [call, odd, nolast, rpc_replies[3], rpc_replies[0]])):
+            out.append(Script(CFG, gens.handshake(CFG.key, s, d, 41150 + j, 111, segs), "established:rpc-no-last-fragment-bit"))
         out.append(Script(CFG, gens.handshake(CFG.key, s, d, 41200, 80, [gens.http_req(), http_resp, http_resp]), "established:http"))
         out.append(Script(CFG, gens.handshake(CFG.key, s, d, 41300, 3478, [gens.stun_req(), gens.stun_req(mtype=0x0101), gens.stun_req(mtype=0x0111)]), "established:stun"))
         # a flow really bound to the STUN responder (over TCP only a magic-cookie request of >= 256 attribute bytes is
